@@ -12,7 +12,7 @@ import copy
 import itertools
 import sqlite3
 
-from sim import gen, kernel, reqs, threaded, world
+from sim import gen, kernel, mutate, reqs, threaded, world
 
 ID = 'C10'
 LEVEL = 'exploration'
@@ -29,7 +29,7 @@ RULE = ('plan = 2-4 clients (distinct certificate identities, optionally '
         'at least one blocked lock acquisition (real contention) and two '
         'sessions that differ in identity and version. Distinct = distinct '
         'switch sequence (from, to, reason, file:line) x workload digest.')
-PROBES = ['contention', 'preempt_fired', 'preempt_inside_engine',
+PROBES = ['session_error_path_concurrent', 'contention', 'preempt_fired', 'preempt_inside_engine',
           'preempt_inside_batch_loop', 'witness_order_search_used',
           'idless_in_batch', 'cross_owner_read', 'version_gated_op']
 REAL_VS_STUB = {
@@ -122,6 +122,35 @@ def generate(rng, tier, index):
                 sc.append({'ver': list(ver), 'items': [
                     gen.gen_attr_op(ctx, ver, ai)]})
         scripts.append(sc)
+    # session-level error paths running concurrently with normal requests:
+    # the session builds those answers itself (engine.build_error_response)
+    # without holding the engine lock
+    if r.random() < 0.55:
+        for _ in range(r.choice([1, 1, 2, 3])):
+            ai = r.randrange(nact)
+            rq = {'ver': list(versions[ai]), 'items': [
+                {'op': 'Query', 'funcs': [1]}]}
+            k = r.choice(['stale', 'future', 'too_large', 'badver',
+                          'garbage', 'async'])
+            if k == 'stale':
+                rq['ts'] = -500
+            elif k == 'future':
+                rq['ts'] = 500
+            elif k == 'too_large':
+                rq['maxresp'] = r.choice([8, 64])
+            elif k == 'badver':
+                rq['ver'] = r.choice([[3, 0], [1, 9]])
+            elif k == 'garbage':
+                rq['mut'] = mutate.gen_spec(r)
+            else:
+                rq['async'] = True
+            scripts[ai].insert(r.randrange(len(scripts[ai]) + 1), rq)
+    if r.random() < 0.3:
+        actors.append({'cn': 'nobody', 'nocert': True} if r.random() < 0.6
+                      else {'cn': 'twocn', 'cns': ['a', 'b']})
+        scripts.append([{'ver': [1, 2], 'items': [
+            {'op': 'Query', 'funcs': [1]}]} for _ in range(r.choice([1, 2]))])
+        nact += 1
     d = r.choice([0, 1, 1, 2, 2, 3, 3, 4, 5])
     preempts = []
     for _ in range(d):
@@ -218,6 +247,9 @@ def execute(plan):
                     probes['preempt_inside_batch_loop'] += 1
         for sc in plan['scripts']:
             for rq in sc:
+                if any(k in rq for k in ('ts', 'maxresp', 'mut', 'async')) \
+                        or tuple(rq['ver']) not in gen.VERSIONS:
+                    probes['session_error_path_concurrent'] += 1
                 ops = rq['items']
                 if len(ops) > 1 and any(
                         o.get('uid') is None and o['op'] in (
